@@ -63,6 +63,18 @@ STATIC = ['a8w8', 'a8sw8', 'a16w8', 'a8w4', 'a16w4']
 FLOATC = ['drq8', 'drq8t', 'drq4', 'wo8', 'wo8s', 'wo4', 'fp16']
 
 
+def needs_calibration(recipe_list):
+  """Independent of RecipeManager.need_calibration: a recipe needs calibration
+  iff some rule (not no_quantize) computes in INTEGER with an activation config."""
+  for r in recipe_list:
+    if str(r.get('algorithm_key')) == NQ:
+      continue
+    c = r.get('op_config') or {}
+    if str(c.get('compute_precision')) == 'INTEGER' and c.get('activation_tensor_config') is not None:
+      return True
+  return False
+
+
 def model_scopes(model_bytes):
   """[(op key or None, scope string with ';')] for every op, plus op names."""
   m = og.read(model_bytes)
